@@ -26,7 +26,7 @@ DRV_S = os.path.join(OVL, "neutrino", "zz_verif_sendtx_test.go")
 PKG_B = os.path.join(core.REPO, "pushtx")
 PKG_S = core.REPO
 
-READY = False
+READY = True
 PROPERTIES = ["C15"]
 
 MANIFEST = {
@@ -66,12 +66,12 @@ CONFIGS = {
         B=dict(NTx=2, MaxOps=5, MaxM=2, Outs='{"ok","mempool","invalid"}', ROuts='{"ok","confirmed"}'),
         S=dict(NP=3, Thrs="{50,60}", Codes="{1,2,4}", MaxDelay=1, MaxX=1),
         BF=dict(NTx=2, MaxOps=5, MaxM=2, Outs='{"ok","mempool","invalid"}', ROuts='{"ok","confirmed"}'),
-        walks=0, depth=0, keep=10),
+        walks=0, depth=0, keep=10, tries=24),
     "thorough": dict(
         B=dict(NTx=3, MaxOps=5, MaxM=1, Outs='{"ok","mempool","invalid"}', ROuts='{"ok","confirmed"}'),
         S=dict(NP=4, Thrs="{50,60,100}", Codes="{1,2,3,4,5}", MaxDelay=1, MaxX=0),
         BF=dict(NTx=3, MaxOps=5, MaxM=2, Outs='{"ok","mempool","invalid"}', ROuts='{"ok","confirmed","invalid"}'),
-        walks=4000, depth=14, keep=20,
+        walks=4000, depth=14, keep=20, tries=60,
         # a second, smaller Broadcaster graph with every outcome class
         B2=dict(NTx=2, MaxOps=5, MaxM=2,
                 Outs='{"ok","mempool","xmempool","confirmed","invalid","fee","unknown","plain"}',
@@ -187,11 +187,11 @@ def build_s(sc):
     return family.build_overlay_test(PKG_S, [DRV_S, wcopy], os.path.join(sc, "neutrino.test"))
 
 
-def drive(binary, test, sc, tag, seed, graph=None, paths=None, walks=0, depth=0, keep=1):
+def drive(binary, test, sc, tag, seed, graph=None, paths=None, walks=0, depth=0, keep=1, tries=24):
     out = os.path.join(sc, "obs-%s.ndjson" % tag)
     stats = os.path.join(sc, "stats-%s.json" % tag)
     env = {"VERIF_SEED": str(seed), "VERIF_STATS": stats, "VERIF_WALKS": str(walks), "VERIF_DEPTH": str(depth),
-           "VERIF_KEEP": str(keep)}
+           "VERIF_KEEP": str(keep), "VERIF_TRIES": str(tries)}
     if graph:
         env["VERIF_GRAPH"] = graph
     observed, log = family.run_driver(binary, test, paths or "", out, sc, env_extra=env, timeout=7000)
@@ -296,7 +296,7 @@ def run(prop_id, tier, seed, replay=None):
                 fk = k[0]
                 observed[k], stats[k] = drive(bins[fk], fams[fk][2], sc, k, seed, graph=gf,
                                               walks=cfg["walks"] if k != "b2" else 0, depth=cfg["depth"],
-                                              keep=cfg["keep"])
+                                              keep=cfg["keep"], tries=cfg["tries"])
                 os.remove(gf)
 
         verdict = {"violations": [], "known": {}, "n_lines": 0, "wall": 0.0, "raw": 0}
